@@ -163,7 +163,7 @@ class ApplyEffectsPair(Unit):
     name = "TimeTriggeredPlanValidator._apply_effects (one instance, two effects)"
     doc = "the merge of two effects of one action instance is the pairwise transition specification of the sequential semantics"
     allowed_raises = (_Conflict,)
-    kind = "unbounded"
+    bounded_by_construction = True      # two effects of one instance: a bounded symbolic check, reported as such in the evidence
 
     def target(self):
         return _pv.TimeTriggeredPlanValidator._apply_effects
